@@ -32,6 +32,9 @@ Definition weight_of_cost (c : N) : N := sat32 (c + c_cw_add) / c_cw_div.
 (* From<U32Weight> for Cost *)
 Definition cost_of_weight (w : N) : N := sat32 (w * c_wc_mul).
 
+(* From<bitcoin::Weight> for Cost: u32::try_from(wu).unwrap_or(u32::MAX), then saturating_mul *)
+Definition cost_of_weight64 (w : N) : N := sat32 (sat32 w * c_bwc_mul).
+
 Definition is_budget_valid (c : N) (ls : list N) : outcome unit bool :=
   match get_budget ls with
   | Ok b => Ok (do_cmp c_valid_cmp c (sat32 (b * c_valid_mul)))
@@ -119,6 +122,12 @@ Proof. unfold cost_of_weight, sat32, c_wc_mul. intros H. lia. Qed.
 
 Theorem cost_of_weight_saturates w : cost_of_weight w = N.min (1000 * w) u32_max.
 Proof. unfold cost_of_weight, sat32, c_wc_mul. f_equal. lia. Qed.
+
+Theorem cost_of_weight64_spec w : cost_of_weight64 w = N.min (1000 * w) u32_max.
+Proof. unfold cost_of_weight64, sat32, c_bwc_mul, u32_max. lia. Qed.
+
+Theorem cost_of_weight64_monotone w1 w2 : w1 <= w2 -> cost_of_weight64 w1 <= cost_of_weight64 w2.
+Proof. rewrite !cost_of_weight64_spec. unfold u32_max. lia. Qed.
 
 (* cost -> weight -> cost rounds up to the next multiple of 1000 *)
 Theorem cost_weight_roundtrip c : c <= c_consensus_max ->
